@@ -82,15 +82,47 @@ func (n *vsNode) openSingle(bootstrap bool) error {
 			return err
 		}
 	}
-	if _, err := n.s.WaitForLeader(15 * time.Second); err != nil {
+	if _, err := n.s.WaitForLeader(90 * time.Second); err != nil { // generous: the machine may be at load 50+
 		return err
 	}
-	dl := time.Now().Add(10 * time.Second)
+	dl := time.Now().Add(60 * time.Second)
 	for !n.s.Ready() && time.Now().Before(dl) {
 		time.Sleep(5 * time.Millisecond)
 	}
 	// the log replay of a restarted node runs after the election: wait until everything is applied
-	return n.s.raft.Barrier(15 * time.Second).Error()
+	return n.s.raft.Barrier(90 * time.Second).Error()
+}
+
+// vsTransient: an error of the harness or of the environment (a node that does not get its leader in time on a
+// loaded machine, a port clash, raft refusing a snapshot while a membership change is pending ...), as opposed to
+// an error the property forbids.  Cases that hit one are retried once and otherwise reported inconclusive.
+func vsTransient(err error) bool {
+	if err == nil {
+		return false
+	}
+	m := strings.ToLower(err.Error())
+	for _, t := range []string{"timeout waiting for leader", "timed out", "timeout", "leadership lost", "not leader", "node is not the leader",
+		"address already in use", "did not catch up", "wait until the configuration entry", "connection refused", "connection reset",
+		"raft is already shutdown", "deadline exceeded", "not ready", "too many open files", "no space left"} {
+		if strings.Contains(m, t) {
+			return true
+		}
+	}
+	return false
+}
+
+// vsRetry runs a history; if the result is inconclusive it is run once more from scratch.
+func vsRetry(run func(attempt int) VCase) VCase {
+	c := run(0)
+	if c.Inconcl == "" {
+		return c
+	}
+	c2 := run(1)
+	if c2.Inconcl == "" {
+		return c2
+	}
+	c2.Inconcl = c.Inconcl + " | retry: " + c2.Inconcl
+	return c2
 }
 
 // restart stops the node and starts it again as a new process would: a fresh Store object (and listener) on
@@ -141,7 +173,7 @@ func vsStallReader(s *Store) (func(), error) {
 		defer close(done)
 		src.QueryWithContext(ctx, &proto.Request{Statements: []*proto.Statement{{Sql: "SELECT * FROM t", ForceStall: true}}}, false)
 	}()
-	time.Sleep(time.Second) // as the package's own tests do: the read must have started
+	time.Sleep(500 * time.Millisecond) // the read must have started (the package's own tests wait 1 s; a read that has not started makes the case inconclusive, not wrong)
 	return func() {
 		cancel()
 		<-done
